@@ -29,10 +29,28 @@ def _additive(name, one, nonneg=False):
     return sym.SpecFun(name, [], SeqRowS, RealS, zero=lambda: z3.RealVal(0), one=one, plus=lambda a, b: a + b, nonneg=nonneg)
 
 
-S = _additive('S_sum', lambda r: f_s1(r))
+# pandas reductions skip missing values: a row whose value is missing (row_count == 0) contributes nothing to sum and sum of squares
+S = _additive('S_sum', lambda r: z3.If(f_c1(r) == 0, z3.RealVal(0), f_s1(r)))
 C = _additive('C_count', lambda r: f_c1(r), nonneg=True)
 N = _additive('N_size', lambda r: f_n1(r), nonneg=True)
-Q = _additive('Q_sumsq', lambda r: f_q1(r), nonneg=True)
+Q = _additive('Q_sumsq', lambda r: z3.If(f_c1(r) == 0, z3.RealVal(0), f_q1(r)), nonneg=True)
+C.consequences = (lambda r: f_c1(r) >= 0, lambda r: f_q1(r) >= 0)
+
+
+def _nan_lemma(formulas):
+    """L-NAN (proved by induction in c_df_reductions.DfLemmas): C(t) == 0  ==>  S(t) == 0 and Q(t) == 0
+    (a batch without a single valid value adds nothing to the running sums)."""
+    out, seen, apps = [], set(), []
+    for f in formulas:
+        sym._walk(f, seen, apps)
+    for sf, app in apps:
+        if sf is S or sf is Q:
+            t = app.arg(0)
+            out.append(z3.Implies(C(t) == 0, z3.And(S(t) == 0, Q(t) == 0)))
+    return out
+
+
+sym.EXTRA_LEMMAS.append(_nan_lemma)
 # per-row facts behind nonneg (assumed): counts and sizes of single rows are >= 0 -- carried by `nonneg`
 
 
